@@ -33,13 +33,18 @@ EVENTS = {
     'wx_ok': ('BOS', 'JFK', '2024-09-01T12:00:00', None, 'ok'),
     'wx_missing_file': ('BOS', 'JFK', '2024-09-02T12:00:00', None, 'FileNotFoundError|ValueError|OSError'),
     'wx_outside_domain': ('BOS', 'LAX', '2024-09-01T12:00:00', None, 'ValueError'),
+    # rejections at the other stages, on a day that has weather (context creation / first performance lookup)
+    'wx_unknown_airport': ('BOS', 'ZZZ', '2024-09-01T12:00:00', None, 'ValueError:unknown airport'),
+    'wx_high_airport': ('BOS', 'XHI', '2024-09-01T12:00:00', None, 'ValueError'),
+    'wx_mass_out_of_envelope': ('BOS', 'JFK', '2024-09-01T12:00:00', 5.0e6, 'ValueError'),
 }
 ALPHABETS = {
     'plain': ['okA', 'okA_rev', 'okB', 'okA@pm2', 'okA_mass', 'toXMD', 'toXMD@pm3', 'unknown_airport', 'unknown_origin', 'high_airport', 'mass_out_of_envelope'],
     'plain-small': ['okA', 'okB', 'okB@pm2', 'okA_mass', 'unknown_airport', 'high_airport'],
     'two-models': ['toXMD', 'toXMD@pm3', 'okA', 'okA@pm2', 'okA_rev'],
     'iter-lhv': ['okC', 'okB', 'okB@pm2', 'unknown_airport'],
-    'weather': ['wx_ok', 'wx_missing_file', 'wx_outside_domain', 'unknown_airport'],
+    'weather': ['wx_ok', 'wx_missing_file', 'wx_outside_domain', 'unknown_airport', 'wx_high_airport', 'wx_mass_out_of_envelope'],
+    'weather-reject': ['wx_ok', 'wx_unknown_airport', 'wx_high_airport', 'wx_mass_out_of_envelope', 'unknown_airport'],
     'weather-small': ['wx_ok', 'wx_missing_file', 'wx_outside_domain'],
 }
 BUILDERS = {
